@@ -11,6 +11,7 @@ import ast
 from ..astutil import calls, const, parent_map, short
 from ..nanq import is_nan_aware_eq, is_plain_eq
 from ..program import AnalysisIncomplete, Func, norm
+from ..sym import Rat
 
 EXPECT = [('R', 'asc'), ('R', 'desc'), ('C', 'asc'), ('C', 'desc')]
 BOUND_NAMES = ['top', 'bottom', 'left', 'right']
